@@ -1256,6 +1256,19 @@ def schema_contracts(specs):
                                'observed': 'compiled without error'})]})
             out.append(c)
             continue
+        if s.get('bounded_only'):
+            # the emitted code is outside the symbolic executor's reach (e.g. a comprehension over a
+            # dynamic value): the schema contract is evaluated on the real pipeline over its catalogue
+            # only -- a bounded stand-in, labelled as such and never counted as proved
+            c = Contract('k3::%s' % s['id'], params={}, source=('def schema():\n    pass\n', 'schema'),
+                         kind='K3', ensures=s.get('ensures', []), raises=s.get('raises', {}),
+                         serves=s.get('serves', []),
+                         ghost={'template': s['text'], 'k3_static_only': True, 'k3_bounded_only': True,
+                                'options': s.get('options', {}), 'spec': s,
+                                'static_checks': [('%s.compiles' % s['id'], True, 'the schema template compiles',
+                                                   {'template': s['text']})]})
+            out.append(c)
+            continue
         if s.get('static_only'):
             c = Contract('k3::%s' % s['id'], params={}, source=('def schema():\n    pass\n', 'schema'),
                          kind='K3', serves=s.get('serves', []),
@@ -1357,6 +1370,15 @@ def schema_contracts(specs):
                 if isinstance(n, ast.Name) and isinstance(n.ctx, ast.Store) and n.id.startswith('__slot_'):
                     takers.setdefault(n.id, set()).add(fname_)
         multi = {k_: sorted(v_) for k_, v_ in takers.items() if len(v_) > 1}
+        # C09: "every define-slot region of a given NAME": distinct slot names stay distinct in the emitted
+        # code (their fillers travel under one variable / scope key per name)
+        slot_names = set(re.findall(r'metal:define-slot="([^"]+)"', s['text']))
+        slot_vars = {n.id for fd_ in em.functions.values() for n in ast.walk(fd_)
+                     if isinstance(n, ast.Name) and isinstance(n.ctx, ast.Store) and n.id.startswith('__slot_')}
+        static.append(('%s.slot_names_distinct' % s['id'], len(slot_vars) == len(slot_names),
+                       'the %d distinct define-slot names of the template have %d distinct filler variables'
+                       % (len(slot_names), len(slot_names)),
+                       {'template': s['text'], 'slot_names': sorted(slot_names), 'filler_variables': sorted(slot_vars)}))
         static.append(('%s.slot_taken_once' % s['id'], not multi,
                        'every `__slot_<name>` filler is popped by exactly one render function of the module',
                        {'template': s['text'], 'slots_popped_by_several_functions': multi}))
